@@ -164,6 +164,32 @@ pub fn run(ctx: &Ctx, rep: &mut Report) {
         let e = gen_tree(&mut r, leaves, &mut |r| gen_leaf(r, 30));
         check_tree(&e, &format!("tree:{}", i), &mut r, rep, 8);
     });
+    // stream shapes: every operator shape of up to three leaves, leaves half tests half actions
+    let n_shapes = ctx.pick(2400, 240_000);
+    par_cases(ctx, "shapes", n_shapes, rep, |i, rep| {
+        let mut r = Rng::for_case(ctx.seed, "shapes", i);
+        let mut leaf = |r: &mut Rng| match r.below(4) {
+            0 => t(Test::True),
+            1 => t(Test::False),
+            2 => gen_leaf(r, 100),
+            _ => gen_leaf(r, 0),
+        };
+        let ops: [fn(Expression, Expression) -> Expression; 3] = [and, or, list];
+        let (a, b, c) = (leaf(&mut r), leaf(&mut r), leaf(&mut r));
+        let o1 = ops[(i % 3) as usize];
+        let o2 = ops[((i / 3) % 3) as usize];
+        let e = match (i / 9) % 8 {
+            0 => o1(a, b),
+            1 => o1(not(a), b),
+            2 => o1(a, not(b)),
+            3 => not(o1(a, b)),
+            4 => o2(o1(a, b), c),
+            5 => o2(a, o1(b, c)),
+            6 => o2(not(o1(a, b)), c),
+            _ => o2(a, not(o1(b, c))),
+        };
+        check_tree(&e, &format!("shapes:{}", i), &mut r, rep, 4);
+    });
     // stream heavy: many matchers / printers so that identifiers and frame tags go past one digit
     let n_heavy = ctx.pick(600, 40_000);
     par_cases(ctx, "heavy", n_heavy, rep, |i, rep| {
